@@ -158,6 +158,45 @@ func shrink(sc *Scenario, run func(*Scenario) *Outcome, limit time.Duration) (*S
 				}
 			}
 		}
+		// drop variables no operation refers to
+		{
+			used := make([]bool, len(best.Vars))
+			for _, t := range best.Tasks {
+				for _, op := range t.Ops {
+					if op.Z >= 0 && op.Z < len(used) {
+						used[op.Z] = true
+					}
+					for _, a := range op.A {
+						if a >= 0 && a < len(used) {
+							used[a] = true
+						}
+					}
+				}
+			}
+			remap := make([]int, len(used))
+			c := best.Clone()
+			c.Vars = nil
+			for i, u := range used {
+				if u {
+					remap[i] = len(c.Vars)
+					c.Vars = append(c.Vars, best.Vars[i])
+				}
+			}
+			if len(c.Vars) < len(best.Vars) && len(c.Vars) > 0 {
+				for t := range c.Tasks {
+					for i := range c.Tasks[t].Ops {
+						op := &c.Tasks[t].Ops[i]
+						if op.Z >= 0 {
+							op.Z = remap[op.Z]
+						}
+						for k := range op.A {
+							op.A[k] = remap[op.A[k]]
+						}
+					}
+				}
+				try(c)
+			}
+		}
 		// drop trailing empty tasks
 		for len(best.Tasks) > 1 && len(best.Tasks[len(best.Tasks)-1].Ops) == 0 {
 			c := best.Clone()
@@ -174,7 +213,7 @@ func shrink(sc *Scenario, run func(*Scenario) *Outcome, limit time.Duration) (*S
 }
 
 func size(sc *Scenario) int {
-	n := len(sc.Preempt) + len(sc.Faults) + len(sc.Pool.EmptyAt) + len(sc.Pool.Garbage)
+	n := len(sc.Preempt) + len(sc.Faults) + len(sc.Pool.EmptyAt) + len(sc.Pool.Garbage) + 2*len(sc.Vars)
 	for _, t := range sc.Tasks {
 		n += 3 * len(t.Ops)
 	}
